@@ -278,6 +278,7 @@ class CaseResult(object):
         self.discharged = 0
         self.nontrivial = 0
         self.trivial = 0
+        self.identical = 0
         self.inconclusive = []      # [(label, why)]
         self.violations = []        # [dict(label, env, detail, confirmed)]
         self.exceptions = []        # [(repr exc, conds)]
@@ -348,10 +349,23 @@ def run_case(case_name, fn, cfg, opts):
             res.exceptions.append((repr(p.exc), [T.show(c) for c in p.conds],
                                    tb))
             if not expect_exc:
-                # an exception escaping the case is a harness error unless the
-                # case catches it and turns it into an obligation
-                res.errors.append('uncaught %r on path %s\n%s' % (
-                    p.exc, [T.show(c) for c in p.conds], tb))
+                # an exception escaping the case: raised by chi itself (the
+                # innermost frame is chi code) -> candidate violation, to be
+                # confirmed by the float run raising as well; raised by the
+                # harness / engine -> harness error
+                tbk = p.exc.__traceback__
+                last = None
+                while tbk is not None:
+                    last = tbk.tb_frame.f_code.co_filename
+                    tbk = tbk.tb_next
+                if last and '/chi/' in last and '/verif/' not in last:
+                    res.obligations += 1
+                    _violation(res, fn, cfg, opts, solver, p,
+                               'no-exception: chi raised %s' %
+                               type(p.exc).__name__, None, repr(p.exc))
+                else:
+                    res.errors.append('uncaught %r on path %s\n%s' % (
+                        p.exc, [T.show(c) for c in p.conds], tb))
             continue
         obls, notes = p.result
         res.notes.update(notes)
@@ -414,6 +428,7 @@ def run_case(case_name, fn, cfg, opts):
                 lt_, rt_ = Sym.lift(lhs).t, Sym.lift(rhs).t
                 if lt_ is rt_:
                     res.trivial += 1
+                    res.identical += 1
                     res.discharged += 1
                     if len(res.samples) < 2:
                         res.samples.append(dict(
